@@ -65,7 +65,15 @@ func c08sitesOf(f *core.FuncInfo, name string, depth int) []c08site {
 		}
 		ev := errVarOfCall(g, in.Call)
 		hands := true
-		for _, rp := range g.ReturnPoints() {
+		rets := g.ReturnPoints()
+		if !c08canFail(in) {
+			// the effect has no error result: it cannot fail, so there is nothing to hand on — every
+			// return of the helper (all of which follow the effect) is "the effect took place"
+			rets = nil
+		} else if !c08canFail(cs) {
+			continue // the helper swallows the effect's error
+		}
+		for _, rp := range rets {
 			r := rp.Node().(*ast.ReturnStmt)
 			if len(r.Results) == 0 {
 				hands = false
@@ -86,6 +94,43 @@ func c08sitesOf(f *core.FuncInfo, name string, depth int) []c08site {
 		out = append(out, c08site{append([]*core.CallSite{cs}, inner[0].Chain...)})
 	}
 	return out
+}
+
+// c08canFail: can the call report a failure, i.e. does its callee have a result of type error? A call
+// whose callee is not a declared function (a function value) is taken to be fallible.
+func c08canFail(cs *core.CallSite) bool {
+	if cs == nil {
+		return true
+	}
+	fn, ok := cs.Callee.(*types.Func)
+	if !ok {
+		return true
+	}
+	sig, ok := fn.Type().(*types.Signature)
+	if !ok {
+		return true
+	}
+	errT := types.Universe.Lookup("error").Type()
+	for i := 0; i < sig.Results().Len(); i++ {
+		if types.Identical(sig.Results().At(i).Type(), errT) {
+			return true
+		}
+	}
+	return false
+}
+
+// c08after: the point `to` is reached only after the effect `call` took place: after it returned a nil
+// error when it can fail (afterSuccess), after it returned at all when it has no error result (a step
+// that cannot fail needs no check at the call site).
+func c08after(f *core.FuncInfo, call *core.CallSite, to core.Point) bool {
+	if c08canFail(call) {
+		return afterSuccess(f, call, to)
+	}
+	if call.InGo || call.InDefer {
+		return false
+	}
+	ok, _ := f.MustPassBefore([]core.Point{call.Pt}, to)
+	return ok
 }
 
 // c08arg resolves argument i of the innermost call of a site to an expression of some function on the
